@@ -1484,6 +1484,15 @@ class Engine:
         if fn == 'umin': return z3.If(z3.ULT(argv[0], argv[1]), argv[0], argv[1])
         if fn == 'abs': return z3.If(argv[0] < 0, -argv[0], argv[0])
         if fn == 'expect': return argv[0]
+        if fn in ('fshr', 'fshl'):
+            # funnel shifts: (a:b) shifted by c modulo the width; fshr keeps the low half, fshl the high half
+            a_, b_, c_ = argv
+            w = a_.size()
+            wide = z3.Concat(a_, b_)
+            amt = z3.ZeroExt(w, z3.URem(c_, z3.BitVecVal(w, w)))
+            if fn == 'fshr':
+                return z3.Extract(w - 1, 0, z3.LShR(wide, amt))
+            return z3.Extract(2 * w - 1, w, wide << amt)
         if fn == 'bswap':
             x = argv[0]; n = x.size() // 8
             return z3.Concat(*[z3.Extract(8 * i + 7, 8 * i, x) for i in range(n)])
